@@ -53,6 +53,12 @@ class D:
 def draw_cfg(d, flavours=FLAVOURS, **extra):
     L, R = d.choice(flavours)
     cfg = {"L": L, "R": R, "salt": d.int(0, 7)}
+    # provider-side event filtering (id-style sides only; the mock ignores it for path-style) and roots handed to the
+    # engine by object id as well as by path
+    if d.chance(1, 5):
+        cfg["filter"] = True
+    if d.chance(1, 5):
+        cfg["root_oids"] = True
     cfg.update(extra)
     return cfg
 
